@@ -38,10 +38,24 @@ GRIDS = ("uniform", "rect_uniform", "quasi", "graded", "stretched")
 def cases(tier, rng):
     q = tier == "quick"
     out = []
-    n = 10 if q else 120
+    n = 12 if q else 300
     for i in range(n):
         out.append({"grid": GRIDS[i % len(GRIDS)], "n_objects": 8 if q else 9})
     return out
+
+
+def _violate(r, what, witness=None, mechanism=None, sig=None):
+    """Record at most two violations per mechanism key and case, so that a frequent (possibly already known)
+    mechanism cannot crowd a different one out of the bounded violation list of `Res`."""
+    k = f"violations[{mechanism}]"
+    r.count(k)
+    if r.counters[k] <= 2:
+        r.violate(what, witness, mechanism, sig)
+    else:
+        r.evals += 1
+        if sig is not None:
+            r.sigs.add(sig if isinstance(sig, str) else repr(sig))
+
 
 
 def run_case(case):
@@ -293,12 +307,12 @@ def _judge(r, obj, m, E, gk, desc):
     r.count("masks_compared")
     sig = (m["kind"], m["axis"] if m["kind"] in ("cylinder", "polygon") else "-", gk, m["size_class"], m["position_mode"], m.get("family", "-"))
     if mask.dtype != np.bool_:
-        r.violate(f"mask dtype {mask.dtype} is not boolean", wit, sig=sig)
+        _violate(r, f"mask dtype {mask.dtype} is not boolean", wit, sig=sig)
         return
     if mask.shape != gshape:
         ok_b = len(mask.shape) == 3 and all(ms in (1, g) for ms, g in zip(mask.shape, gshape))
         if not ok_b:
-            r.violate(f"mask shape {mask.shape} does not fit the object's grid shape {gshape}", wit, sig=sig)
+            _violate(r, f"mask shape {mask.shape} does not fit the object's grid shape {gshape}", wit, sig=sig)
             return
         r.branch("mask_broadcast_along_axis")
         mask = np.broadcast_to(mask, gshape)
@@ -326,7 +340,7 @@ def _judge(r, obj, m, E, gk, desc):
         r.count("analytic_cells_outside_allocated_box", out)
         r.branch(f"box_truncates_shape:{gk}")
         u = "uniform" if gk in ("uniform", "rect_uniform") else "nonuniform"
-        r.violate(
+        _violate(r, 
             f"{m['kind']}: {out} cells of the volume have their centre strictly inside the analytic shape but lie outside the "
             f"grid box {[list(x) for x in sl]} allocated to the object, so they are not marked",
             {**wit, "cells_outside_box": out, "box_extent": [float(E[a][sl[a][1]] - E[a][sl[a][0]]) for a in range(3)],
@@ -345,7 +359,7 @@ def _judge(r, obj, m, E, gk, desc):
     if bad.any():
         idx = np.argwhere(bad)
         i0 = tuple(int(x) for x in idx[0])
-        r.violate(
+        _violate(r, 
             f"{m['kind']}: {int(bad.sum())} of {int(judged.sum())} cells differ from cell-centre inclusion",
             {**wit, "first_bad_cell": list(i0), "mask_value": bool(mask[i0]), "analytic_inside": bool(want[i0]),
              "cell_centre_relative_to_box_centre": [float(X[a][i0]) for a in range(3)], "n_bad": int(bad.sum()),
